@@ -38,7 +38,10 @@ generated file, exit code stays 0, and every tie theorem that mentions it stops 
                x = C(a, ..) / x = <object-valued call> (LOCAL OBJECT, below) | x.attr = e | x.attr op= e |
                print(...) (dropped; strings are opaque, below) |
                for i in range(a[, b[, step]]): … | for x in L: … (L a list variable the body does not modify) |
-               while c: … | while True: … | while 1: … | break | continue          (LOOPS, below)
+               while c: … | while True: … | while 1: … | break | continue          (LOOPS, below) |
+               for k, x in enumerate(L): … | L[i] = e / L[i] op= e on a list of numbers created in this function (by a display or
+               `[c] * n`) | T[i, j] = e on a table created by np.zeros | raise E(…) | x = lambda p: e (LAMBDAS, below) |
+               the DECLARED statement forms of the third generation (FEATURE COLUMNS, WRITE LOG, DECLARED COLLECTIONS, below)
   expressions  names, int / float / bool literals, unary - + not, + - * / on floats (int operands converted),
                + - * // % >> on ints, ** and pow(x, y) with a float operand (uninterpreted `pow`), comparisons (chains of
                two), `x in L` / `x not in L` (x an int or a tuple of ints), and / or / & / | on bools, e1 if c else e2,
@@ -48,8 +51,14 @@ generated file, exit code stays 0, and every tie theorem that mentions it stops 
                math.fabs, abs, min/max of numbers (n-ary; CPython's "first among equals"), float(x), int(x) (uninterpreted
                `trunc` on a float), x.is_integer(), declared attributes / accessors of object parameters, attributes of
                local objects, module constants, class constants `C.NAME`, calls of other whitelisted functions / methods of
-               the same file, calls DECLARED to be the identity on a list (`assume_identity`, below).
-  NOT accepted comprehensions, recursion, slices, subscript assignment, try, with, lambda, global, for/while ... else, starred /
+               the same file, calls DECLARED to be the identity on a list (`assume_identity`, below),
+               `[c] * n` (Py.replicate), `b * x` with b a bool and x a float (True is 1), `sys.float_info.max` (parameter `dblmax`),
+               `x != None` / `x is not None` / `x == None` / `x is None` on a number / bool / list (constant: such a value is not None;
+               for a PARAMETER this is part of its declared type), `range(a[, b])` as a value (the list of its ints),
+               `T[i, j]`, `T.shape[0]`, `np.zeros((r, c))` on TABLES, `p.name(args)` for a DECLARED accessor with arguments of an
+               object parameter, `self.m(args)` in a method (the translated method of the same class on the same declared object),
+               a call of a local bound to a lambda.
+  NOT accepted comprehensions, recursion, slices, subscript assignment into a parameter, try, with, global, for/while ... else, starred /
                keyword arguments, omitted (defaulted) arguments except in a constructor call, truthiness of non-bools
                (except `while 1`), a name that may be unbound unless it is DECLARED `unbound[τ]`, a function that can fall
                off its end unless its return type is optional, an object used as a plain value (alias, argument of an
@@ -106,6 +115,41 @@ LOOPS.  K, the CONTINUATION CONTEXT, says what `return v`, the end of the statem
   ⟦if c: A else: B ; rest⟧ when A, B contain no return/break/continue, rest contains a loop, and every variable A, B bind is
     already bound (or declared `unbound[τ]`): translated WITH A JOIN instead of duplicating rest —
         Py.bind (if c then ⟦A⟧_join else ⟦B⟧_join) fun j => let x₁ := j.1; …; ⟦rest⟧_K      (⟦·⟧_join: end ↦ .ok (x₁, …))
+THIRD GENERATION (C11, C15, C12) — each DECLARED form is an ASSUMPTION stated with the tie that uses it:
+  ⟦for k, x in enumerate(L): B⟧  = forList over `Py.enumerate L` = [(0, L[0]), (1, L[1]), …]; the body binds k and x from the pair.
+  ⟦L[i] = e⟧ = Py.bind (Py.setIdx L i v) fun L => …   (Python's negative indices, IndexError; L must have been created in this function
+    by a list display or `[c] * n`, so no alias of it exists; the index expression must be pure). `L[i] op= e` is `L[i] = L[i] op e`.
+  ⟦raise E(…)⟧ = .error Py.Err.raised (class and message are not tracked; the arguments are not evaluated).
+  IF-JOIN, extended: an `if`/`else` ahead of a loop may also bind a NEW variable when both branches bind it by a plain top-level
+    assignment with the same type (`if m == AND: comp = True else: comp = False`); it joins the tuple after the already-bound ones.
+  ISINSTANCE, refined: `isinstance(p, C)` is decided from the declared kind of parameter p when p has not been assigned on the path to the
+    test (and, inside a loop, nowhere in that loop) — so `if not isinstance(p, list): p = [p]` is dropped for a declared list and
+    `if isinstance(kernel, Kernel): … kernel = kernel.toSlidingWindow()` takes its first branch for {"__isinstance__": "Kernel"}.
+    Kinds: list[..] / table: list; objlist[..]: Track; `col` / `name`: str; {"__isinstance__": "K"}: class K only.
+  LAMBDAS: `f = lambda p: e` is kept as syntax (refused if e reads a name the function assigns); `g = h(f)` for h DECLARED in
+    "assume_identity_fn" (np.vectorize: ASSUMED to behave as f on the scalar arguments it is called with) is f; `f(a)` is e with p := a
+    (p must be a new name, or a must be the variable p itself). {"assume_true": ["output.shape == ()"]} / {"assume_false": [..]}: an `if`
+    whose test is EXACTLY this text takes that branch (the 0-d result of a vectorised call on a scalar; `str(kernel) == 'Dirac kernel'`).
+  FEATURE COLUMNS: a parameter of type `col` is a feature NAME seen as the column it designates (`list[col]`: a list of names); for an
+    object parameter declared with {"getObsAnalyticalFeature(col,int)": "float"}, `p.getObsAnalyticalFeature(c, i)` is `Py.getIdx c i`
+    (ASSUMED: the name is a key of the track's feature table, the column has one value per observation, negative i counts from the end as
+    `__POINTS[i]` does, and the column is not changed by the function's own writes — see WRITE LOG). A parameter of type `name` is an
+    opaque string that is only passed on: it has no Lean parameter. A key "name(τ1,..)" other than (col,int) declares an UNINTERPRETED pure
+    function of the object: one parameter `<param>_<name> : τ1 → .. → ρ` (`self.__kernel_function(x)`).
+  WRITE LOG {"write_log": "track.setObsAnalyticalFeature"}: the function has no return statement and its only effect is the calls
+    `setter(<name parameter>, i, v)`; each appends (i, v) to `py_log` (a loop-state variable like any other), and the translation returns
+    the log (declared return type list[tuple[int,τ]]). ASSUMED: the feature written is not read back by the function at an index it has
+    already written (true of segmentation(): observation i is read before it is written, no other index is touched at step i).
+  DECLARED COLLECTIONS {"new_list": {"tracklib.TrackCollection": "list[record[Piece]]"}, "append_methods": ["addTrack"]}: this
+    constructor call makes an empty list of the declared element type, this method appends to it. {"record_methods": {"length": "float"}}:
+    `r.length()` on a record of view V is the UNINTERPRETED function parameter `V_length : <V's tuple> → float` (ASSUMED pure, total).
+    {"make": {"track.extract(_, _)": "Piece"}}: a sub-track seen as its two bounds (ASSUMED: extract does not raise on the bounds the loop
+    produces; what the piece contains is `Track.extract`'s business — C11's model proves the bounds determine it).
+  TABLES: `table[float]` is a 2-D numpy array of floats used as a plain table = the list of its rows: `T.shape[0]` = Py.len,
+    `np.zeros((r, c))` = Py.zeros2 (ValueError on a negative dimension), `T[i, j]` = Py.getIdx2, `T[i, j] = e` = Py.setIdx2 on a table created
+    in this function (e converted to a float, as a float64 array does). ASSUMED of a table PARAMETER: it is rectangular float64 data.
+    {"result_through": ["backward"]}: `return backward(M)` is translated as `return M` — the tie is about the table, what `backward` makes
+    of it is outside the translation. {"assume_identity": ["progressbar.progressbar"]} also accepts a dotted function name.
 RECORDS AND OBSERVATION LISTS (objects that are only READ; table VIEWS below).  `record[V]`: an object seen through the DECLARED
   access paths of view V (attributes and argument-less accessors, ASSUMED pure): the tuple of those components. `objlist[V]`: a
   Track seen as the list of its observations (`X.getObs(e)`, `X[e]`: Py.getIdx — Python indexing, IndexError; `X.getFirstObs()`,
@@ -143,6 +187,7 @@ import argparse
 import ast
 import os
 import sys
+import warnings
 
 VERIF = os.path.dirname(os.path.dirname(os.path.abspath(__file__)))
 
@@ -234,6 +279,32 @@ WHITELIST = [
      {"assume_identity": ["listify"]}),
     ("core/utils.py", "co_median", "co_median", {"tarray": "list[float]"}, "float",
      {"tarray2": "list[float]", "tab_sort": "list[float]"}, {"assume_identity": ["listify"]}),
+    # ---- C11: segmentation() and the feature-name half of split() on a track seen as FEATURE COLUMNS
+    ("algo/segmentation.py", "segmentation", "segmentation",
+     {"track": {"size()": "int", "getObsAnalyticalFeature(col,int)": "float"}, "afs_input": "list[col]", "af_output": "name",
+      "thresholds_max": "list[float]", "mode_comparaison": "int"}, "list[tuple[int,int]]", {},
+     {"imports": {"isnan": "core/utils.py"}, "assume_noop": ["track.createAnalyticalFeature"], "write_log": "track.setObsAnalyticalFeature"}),
+    ("algo/segmentation.py", "split", "split_feature",
+     {"track": {"size()": "int", "getObsAnalyticalFeature(col,int)": "float"}, "source": "col", "limit": "float"}, "list[record[Piece]]",
+     {"count": "int", "begin": "int"},
+     {"new_list": {"tracklib.TrackCollection": "list[record[Piece]]"}, "append_methods": ["addTrack"],
+      "make": {"track.extract(_, _)": "Piece"}, "record_methods": {"length": "float"}, "assume_noop": ["newtrack.setUid"]}),
+    # ---- C12: the D / M tables of optimalPartition (the backward pass `backward(M)` is outside: the translation returns M)
+    ("algo/segmentation.py", "optimalPartition", "optimalPartition_tables",
+     {"cost_matrix": "table[float]", "mode": "int", "verbose": "bool"}, "table[float]", {},
+     {"assume_identity": ["progressbar.progressbar"], "result_through": ["backward"]}),
+    # ---- C15: the kernel window and the filter loops
+    ("core/kernel.py", "Kernel.evaluate", "Kernel_evaluate",
+     {"self": {"support": "float", "__kernel_function(float)": "float"}, "x": "float"}, "float", {},
+     {"assume_identity_fn": ["np.vectorize"], "assume_true": ["output.shape == ()"]}),
+    ("core/kernel.py", "Kernel.toSlidingWindow", "Kernel_toSlidingWindow",
+     {"self": {"support": "float", "__kernel_function(float)": "float"}}, "list[float]", {"values": "list[float]", "norm": "float"}),
+    ("core/operators.py", "Filter.execute", "Filter_execute_kernel",
+     {"self": {}, "track": {"size()": "int", "getObsAnalyticalFeature(col,int)": "float"}, "af_input": "col",
+      "kernel": {"__isinstance__": "Kernel", "filterBoundary()": "bool", "toSlidingWindow()": "list[float]"}, "af_output": "name"},
+     "list[float]", {"temp": "list[float]", "norm": "float"},
+     {"assume_false": ["str(kernel) == 'Dirac kernel'"], "assume_noop": ["track.createAnalyticalFeature", "addListToAF"],
+      "imports": {"isnan": "core/utils.py"}}),
     ("core/raster.py", "Raster.getCell", "Raster_getCell",
      {"self": {"xmin": "float", "xmax": "float", "ymin": "float", "ymax": "float", "resolution": "tuple[float,float]",
                "nrow": "int", "ncol": "int"},
@@ -255,6 +326,8 @@ VIEWS = {
     # declared to be an integer key and its rich comparisons the integer ones (that ObsTime's field-wise __lt__/__gt__/__le__
     # agree with the order of the instants is C03's theorems `lt_iff` / `gt_iff` / `le_iff`, not re-proved by the tie)
     "ObsKey": {"__class__": ("core/obs.py", "Obs"), "timestamp": "int"},
+    # a sub-track `track.extract(lo, hi)` seen as its two bounds (C11 `split`; its length() is an uninterpreted function of the bounds)
+    "Piece": {"lo": "int", "hi": "int"},
 }
 REG = {}    # path -> Unit of the current run (classes and functions are looked up across the whitelisted files)
 
@@ -296,8 +369,9 @@ MATH_FUNS = {"sqrt": (1, "F", "α → α"), "sin": (1, "F", "α → α"), "cos":
              "pi": (0, "F", "α"),               # math.pi
              "pow": (2, "F", "α → α → α"),      # x ** y and pow(x, y) with a float operand (C's pow)
              "nan": (0, "F", "α"),              # float("nan") (and a module constant defined so)
-             "inf": (0, "F", "α")}              # float("inf"), a literal that overflows to infinity (1e400)
-MATH_ORDER = ["nan", "inf", "pi", "sqrt", "sin", "cos", "tan", "atan", "atan2", "exp", "log", "pow", "floor", "trunc"]
+             "inf": (0, "F", "α"),              # float("inf"), a literal that overflows to infinity (1e400)
+             "dblmax": (0, "F", "α")}           # sys.float_info.max
+MATH_ORDER = ["nan", "inf", "dblmax", "pi", "sqrt", "sin", "cos", "tan", "atan", "atan2", "exp", "log", "pow", "floor", "trunc"]
 LEAN_KEYWORDS = {"«", "at", "from", "end", "fun", "in", "do", "then", "else", "if", "let", "have", "show", "by", "match",
                  "with", "where", "def", "theorem", "open", "section", "namespace", "variable", "instance", "class",
                  "structure", "import", "Type", "Prop", "Sort", "forall", "exists", "using", "this", "mut", "for",
@@ -320,6 +394,12 @@ def parse_ty(s):
     s = s.replace(" ", "")
     if s in ("float", "int", "bool"):
         return {"float": "F", "int": "I", "bool": "B"}[s]
+    if s == "table[float]":
+        return ("L", ("L", "F"))  # a 2-D numpy array of floats used as a plain table: the list of its rows (TABLES, header)
+    if s == "col":
+        return ("L", "F")        # a feature NAME, seen as the column it designates (FEATURE COLUMNS, header)
+    if s == "name":
+        return "S"               # an opaque string (a feature name that is only passed on): no Lean parameter
     if s.startswith("object[") and s.endswith("]"):
         return ("Obj", s[7:-1])
     if s.startswith("record[") and s.endswith("]"):
@@ -415,6 +495,8 @@ class KFun:
         self.tr = tr
 
     def end(self, env):
+        if self.tr.opts.get("write_log"):
+            return "(.ok py_log)"          # WRITE LOG: the function's result is the sequence of its writes
         if isinstance(self.tr.ret, tuple) and self.tr.ret[0] == "O":
             return "(.ok none)"
         raise Unsupported("a path falls off the end of the function (returns None) but the declared return type is not optional")
@@ -494,10 +576,13 @@ class FnTranslator:
             if isinstance(v, str):
                 vs = v.replace(" ", "")
                 self.kind[k] = ("track" if vs.startswith("objlist[") else "list" if vs.startswith("list[") else
-                                "number" if vs == "float" else "int" if vs == "int" else "bool" if vs == "bool" else "other")
+                                "number" if vs == "float" else "int" if vs == "int" else "bool" if vs == "bool" else
+                                "str" if vs in ("col", "name") else "other")
+            elif isinstance(v, dict) and "__isinstance__" in v:
+                self.kind[k] = "class:" + v["__isinstance__"]
         for k, v in params.items():
             if isinstance(v, dict):
-                self.records[k] = {f: parse_ty(t) for f, t in v.items() if f != "__class__"}
+                self.records[k] = {f: parse_ty(t) for f, t in v.items() if f not in ("__class__", "__isinstance__")}
                 if "__class__" in v:
                     # an instance of a class of the same file: its methods / operators are resolved statically
                     self.objclass[k] = v["__class__"]
@@ -513,6 +598,7 @@ class FnTranslator:
         self.math = set()        # math functions passed as parameters
         self.ntmp = 0
         self.size = 0
+        self.rec_funs = {}       # uninterpreted methods of records (declared "record_methods"): Lean name -> (result type, record type)
 
     # ---- bookkeeping
     def need(self, *cls):
@@ -701,6 +787,19 @@ class FnTranslator:
             r = self.rec_access(e, env, binds)
             if r is not None:
                 return r
+        if isinstance(e, ast.Subscript) and isinstance(e.value, ast.Attribute) and e.value.attr == "shape" \
+                and isinstance(e.slice, ast.Constant) and e.slice.value == 0 and isinstance(e.value.value, ast.Name) \
+                and env.get(e.value.value.id) == ("L", ("L", "F")):
+            return Val("(Py.len %s)" % ident(e.value.value.id), "I")       # T.shape[0]: the number of rows of a table
+        if isinstance(e, ast.Subscript) and isinstance(e.slice, ast.Tuple) and len(e.slice.elts) == 2 \
+                and isinstance(e.value, ast.Name) and env.get(e.value.id) == ("L", ("L", "F")):
+            i1 = self.expr(e.slice.elts[0], env, binds)
+            i2 = self.expr(e.slice.elts[1], env, binds)
+            if i1.ty != "I" or i2.ty != "I":
+                bad(e, "table index that is not an int")
+            t = self.tmp()          # T[i, j]: row i (negative indices as numpy / Python, IndexError), then item j likewise
+            binds.append((t, "(Py.getIdx2 %s %s %s)" % (ident(e.value.id), i1.term, i2.term)))
+            return Val(t, "F")
         if isinstance(e, ast.Subscript):
             v = self.expr(e.value, env, binds)
             k = e.slice
@@ -724,6 +823,9 @@ class FnTranslator:
                 return Val(tuple_proj(v.term, k.value, len(v.ty[1])), v.ty[1][k.value])
             bad(e, "subscript of a %s" % (v.ty,))
         if isinstance(e, ast.Attribute):
+            if ast.unparse(e) == "sys.float_info.max" and "sys" not in env:
+                self.math.add("dblmax")
+                return Val("dblmax", "F")
             if isinstance(e.value, ast.Name) and e.value.id == "math" and "math" not in env and e.attr in ("pi", "inf", "nan"):
                 self.math.add(e.attr)
                 return Val(e.attr, "F")
@@ -778,6 +880,13 @@ class FnTranslator:
                 recv = self.expr_s(e.left, env, binds)
                 callee = self.lookup_method(e, rt, "__sub__" if isinstance(e.op, ast.Sub) else "__add__")
                 return self.call_translated(e, callee, [("rec", recv), e.right], env, binds)
+        if isinstance(e.op, ast.Mult) and isinstance(e.left, ast.List) and len(e.left.elts) == 1:
+            # [c] * n: n copies of c (none when n <= 0), Py.replicate
+            c = self.expr(e.left.elts[0], env, binds)
+            n = self.expr(e.right, env, binds)
+            if c.ty not in ("F", "I") or n.ty != "I":
+                bad(e, "[c] * n with c not a number or n not an int")
+            return Val("(Py.replicate %s %s)" % (n.term, c.term), ("L", c.ty), lit=c.lit)
         a = self.expr_s(e.left, env, binds)
         b = self.expr_s(e.right, env, binds)
         if (a.ty == "S") != (b.ty == "S"):
@@ -785,6 +894,13 @@ class FnTranslator:
         op = e.op
         if a.ty == "S" and b.ty == "S" and isinstance(op, ast.Add):
             return Val(None, "S")
+        if isinstance(op, ast.Mult) and {a.ty, b.ty} == {"B", "F"}:
+            # a bool as a number: True is 1, False is 0 (the product is then a float)
+            self.need("Mul")
+            self.ofnat |= {0, 1}
+            x = a.term if a.ty == "F" else "(if %s then (1 : α) else (0 : α))" % a.term
+            y = b.term if b.ty == "F" else "(if %s then (1 : α) else (0 : α))" % b.term
+            return Val("(%s * %s)" % (x, y), "F")
         if isinstance(op, ast.Mult) and a.ty == "B" and b.ty == "I":
             return Val("((if %s then (1 : Int) else (0 : Int)) * %s)" % (a.term, b.term), "I")      # True == 1, False == 0
         if a.ty not in ("F", "I") or b.ty not in ("F", "I"):
@@ -870,6 +986,14 @@ class FnTranslator:
         bad(node, "comparison operator %s" % type(op).__name__)
 
     def compare(self, e, env, binds):
+        if len(e.ops) == 1 and isinstance(e.ops[0], (ast.Eq, ast.NotEq, ast.Is, ast.IsNot)) \
+                and isinstance(e.comparators[0], ast.Constant) and e.comparators[0].value is None and isinstance(e.left, ast.Name):
+            # `x != None` / `x is not None` (`==` / `is`): x a number, a bool or a list — a parameter DECLARED with such a type is
+            # ASSUMED not to be None; a local of such a type cannot be
+            t = env.get(e.left.id)
+            if t in ("F", "I", "B") or (isinstance(t, tuple) and t[0] in ("L", "T")):
+                return Val("true" if isinstance(e.ops[0], (ast.NotEq, ast.IsNot)) else "false", "B")
+            bad(e, "comparison with None of something that is not a number / a list")
         nodes = [e.left] + list(e.comparators)
         if len(nodes) > 3:
             bad(e, "comparison chain longer than two")
@@ -950,29 +1074,38 @@ class FnTranslator:
         return None
 
     def isinstance_test(self, e, env):
-        """`isinstance(p, C)` on a PARAMETER p that the function never rebinds, decided from p's declared kind:
-        list[..] is a `list`; objlist[..] is a `Track` (`tracklib.Track`); a declared float is "an int or a float": the test for
-        ONE of the two is refused, only the disjunction of both is accepted (true). Returns True / False / None (not of this form)."""
+        """`isinstance(p, C)` on a PARAMETER p that still holds the caller's argument on the path to the test (no assignment to p
+        on that path; inside a loop: none anywhere in the loop), decided from p's declared kind:
+        list[..] is a `list`; objlist[..] is a `Track` (`tracklib.Track`); `col` / `name` is a `str`; a parameter declared with
+        {"__isinstance__": "K"} is an instance of class K (and of no other class named in a test); a declared float is "an int or a
+        float": the test for ONE of the two is refused, only the disjunction of both is accepted (true).
+        Returns True / False / None (not of this form)."""
         if not (isinstance(e, ast.Call) and isinstance(e.func, ast.Name) and e.func.id == "isinstance" and "isinstance" not in env
                 and len(e.args) == 2 and not e.keywords and isinstance(e.args[0], ast.Name)):
             return None
         x = e.args[0].id
-        if x not in self.kind or x in self.assigned:
-            bad(e, "isinstance of something that is not a never-rebound parameter with a declared kind")
+        if x not in self.kind or x in env.get("#rebound", ()):
+            bad(e, "isinstance of something that is not a parameter with a declared kind, not rebound on the way to the test")
         cls = ast.unparse(e.args[1])
         kind = self.kind[x]
+        if kind.startswith("class:"):
+            if cls in ("list", "str", "int", "float", "Track", "tracklib.Track"):
+                return False
+            return cls == kind[6:]
         if cls == "list":
             return kind == "list"
         if cls in ("Track", "tracklib.Track"):
             return kind == "track"
         if cls == "str":
-            return False if kind != "other" else bad(e, "isinstance(.., str) of an undeclared kind")
+            return kind == "str" if kind != "other" else bad(e, "isinstance(.., str) of an undeclared kind")
         if cls in ("int", "float"):
-            if kind in ("list", "track"):
+            if kind in ("list", "track", "str"):
                 return False
             if kind == "int":
                 return cls == "int"
             bad(e, "isinstance(%s, %s) alone: a declared float is an int or a float" % (x, cls))
+        if kind in ("list", "track", "str", "number", "int", "bool") and cls in self.opts.get("other_classes", ()):
+            return False        # DECLARED: a class none of whose instances is a list / Track / str / number
         bad(e, "isinstance test against %s" % cls)
 
     def boolop(self, e, env, binds):
@@ -982,7 +1115,7 @@ class FnTranslator:
                 and isinstance(v.args[0], ast.Name) for v in e.values) \
                 and e.values[0].args[0].id == e.values[1].args[0].id \
                 and {ast.unparse(v.args[1]) for v in e.values} == {"int", "float"} \
-                and self.kind.get(e.values[0].args[0].id) == "number" and e.values[0].args[0].id not in self.assigned:
+                and self.kind.get(e.values[0].args[0].id) == "number" and e.values[0].args[0].id not in env.get("#rebound", ()):
             return Val("true", "B")        # isinstance(p, int) or isinstance(p, float) on a declared number
         first = self.expr(e.values[0], env, binds)
         if first.ty != "B":
@@ -1180,6 +1313,13 @@ class FnTranslator:
             bad(node, "arity / default arguments")
         args = []
         for a, (pn, pt) in zip(actuals, callee.params.items()):
+            if pn in callee.records and isinstance(a, tuple) and a[0] == "rparam":
+                for fld, ft in callee.records[pn].items():
+                    if self.records[a[1]].get(fld) != ft or (isinstance(ft, tuple) and ft[0] == "Obj"):
+                        bad(node, "path %s read by %s is not declared (with that type) for %s" % (fld, callee.pyname, a[1]))
+                    if not fld.endswith("(col,int)"):
+                        args.append(ident(a[1] + "_" + fld.split("(")[0]))
+                continue
             if pn in callee.records:
                 if isinstance(a, ast.AST) and not self.is_objexpr(a, env):
                     rt = self.static_type(a, env)
@@ -1227,6 +1367,8 @@ class FnTranslator:
                 args.append("(List.map (fun (py_k : Int) => ((py_k : Int) : α)) %s)" % v.term)
             else:
                 bad(a, "argument %s of %s: a %s where a %s is declared" % (pn, callee.pyname, v.ty, pt))
+        if callee.rec_funs:
+            bad(node, "call of a function with uninterpreted record methods")
         if callee.uses_fuel:
             self.uses_fuel = True
         self.needs |= callee.needs
@@ -1263,12 +1405,69 @@ class FnTranslator:
             if not (isinstance(v.ty, tuple) and v.ty[0] == "L"):
                 bad(e, "len of something that is not a list")
             return Val("(Py.len %s)" % v.term, "I")
+        if isinstance(f, ast.Name) and f.id == "range" and "range" not in env and 1 <= len(e.args) <= 2:
+            vals = [self.expr(x, env, binds) for x in e.args]       # range(a[, b]) as a value: the list of its ints
+            if any(v.ty != "I" for v in vals):
+                bad(e, "range() of non-ints")
+            return Val("(Py.range %s %s)" % ("(0 : Int)" if len(vals) == 1 else vals[0].term, vals[-1].term), ("L", "I"))
+        if ast.unparse(f) == "np.zeros" and "np" not in env and len(e.args) == 1 and isinstance(e.args[0], ast.Tuple) \
+                and len(e.args[0].elts) == 2:
+            vals = [self.expr(x, env, binds) for x in e.args[0].elts]      # np.zeros((r, c)): r rows of c zeros (TABLES)
+            if any(v.ty != "I" for v in vals):
+                bad(e, "np.zeros of non-ints")
+            self.ofnat.add(0)
+            t = self.tmp()          # ValueError on a negative dimension
+            binds.append((t, "(Py.zeros2 %s %s (0 : α))" % (vals[0].term, vals[1].term)))
+            return Val(t, ("L", ("L", "F")))
+        if isinstance(f, ast.Attribute) and ast.unparse(f) in self.opts.get("assume_identity", ()) and len(e.args) == 1 \
+                and isinstance(f.value, ast.Name) and f.value.id not in env:
+            v = self.expr(e.args[0], env, binds)      # DECLARED identity on a list (e.g. progressbar.progressbar on a range)
+            if not (isinstance(v.ty, tuple) and v.ty[0] == "L"):
+                bad(e, "%s is only assumed to be the identity on a list" % ast.unparse(f))
+            return v
         if isinstance(f, ast.Name) and f.id not in env and f.id in self.opts.get("assume_identity", ()) and len(e.args) == 1:
             # DECLARED in the signature: on this argument the call returns its argument unchanged (e.g. `listify` on a list)
             v = self.expr(e.args[0], env, binds)
             if not (isinstance(v.ty, tuple) and v.ty[0] == "L"):
                 bad(e, "%s is only assumed to be the identity on a list" % f.id)
             return v
+        # a local bound to a lambda (LAMBDAS, header): the call is the lambda's body on the argument
+        if isinstance(f, ast.Name) and isinstance(env.get(f.id), tuple) and env[f.id][0] == "Lam":
+            lam = env[f.id][1]
+            if len(lam.args.args) != 1 or len(e.args) != 1:
+                bad(e, "call of a lambda that does not take exactly one argument")
+            pn = lam.args.args[0].arg
+            env2 = dict(env)
+            if isinstance(e.args[0], ast.Name) and e.args[0].id == pn and pn in env:
+                pass                       # f(x) for `lambda x: …`: the parameter is the variable of the same name
+            elif pn not in env:
+                a = self.expr(e.args[0], env, binds)
+                binds.append((ident(pn), "(.ok %s)" % a.term))
+                env2[pn] = a.ty
+            else:
+                bad(e, "the lambda's parameter %s shadows a different variable at the call" % pn)
+            return self.expr(lam.body, env2, binds)
+        # accessor WITH ARGUMENTS of a declared object parameter: "name(col,int)" = a feature read; otherwise an uninterpreted
+        # pure function parameter `<param>_<name>`
+        if isinstance(f, ast.Attribute) and isinstance(f.value, ast.Name) and env.get(f.value.id) == ("R", f.value.id) and e.args:
+            fields = self.records[f.value.id]
+            keys = [k for k in fields if k.startswith(f.attr + "(") and k != f.attr + "()"]
+            if len(keys) == 1:
+                atys = keys[0][len(f.attr) + 1:-1].replace(" ", "").split(",")
+                if len(atys) != len(e.args):
+                    bad(e, "arity of the declared accessor %s" % keys[0])
+                vals = [self.expr(a, env, binds) for a in e.args]
+                terms = [self.coerce(a, v, parse_ty(t)) for a, v, t in zip(e.args, vals, atys)]
+                if atys == ["col", "int"]:
+                    t = self.tmp()       # FEATURE COLUMNS: the value of the feature named by the first argument at observation i
+                    binds.append((t, "(Py.getIdx %s %s)" % (terms[0], terms[1])))
+                    return Val(t, fields[keys[0]])
+                return Val("(%s %s)" % (ident(f.value.id + "_" + f.attr), " ".join(terms)), fields[keys[0]])
+            if self.pyname.count(".") == 1 and f.value.id == list(self.params)[0]:
+                # self.m(args) in a method of class C: C.m, translated, on the same declared object (its declared paths must be
+                # declared for this function too, with the same types)
+                callee = self.unit.lookup(self.pyname.split(".")[0] + "." + f.attr, self)
+                return self.call_translated(e, callee, [("rparam", f.value.id)] + list(e.args), env, binds)
         # argument-less accessor of a declared object parameter
         if isinstance(f, ast.Attribute) and isinstance(f.value, ast.Name) and env.get(f.value.id) == ("R", f.value.id):
             fields = self.records[f.value.id]
@@ -1292,6 +1491,15 @@ class FnTranslator:
             cls, terms = self.obj_terms(f.value, env, binds)
             callee = self.lookup_method(e, ("Obj", cls), f.attr)
             return self.call_translated(e, callee, [("obj", cls, terms)] + list(e.args), env, binds)
+        # DECLARED uninterpreted method of a record ("record_methods"): a pure function parameter `<View>_<method>` of the record
+        if isinstance(f, ast.Attribute) and not e.args and f.attr in self.opts.get("record_methods", {}):
+            rt = self.static_type(f.value, env)
+            if isinstance(rt, tuple) and rt[0] == "Rec":
+                recv = self.expr_s(f.value, env, binds)
+                name = ident(rt[1] + "_" + f.attr)
+                vt = parse_ty(self.opts["record_methods"][f.attr])
+                self.rec_funs[name] = (vt, rt)
+                return Val("(%s %s)" % (name, recv.term), vt)
         # method of a record (an observation seen through its declared view), resolved statically to the class of the view
         if isinstance(f, ast.Attribute):
             rt = self.static_type(f.value, env)
@@ -1411,20 +1619,25 @@ class FnTranslator:
             return self.unit.obj_lean_ty(self.ret[1])
         return lean_ty(self.ret)
 
-    @staticmethod
-    def stored_names(stmts):
+    def stored_names(self, stmts):
         """names (re)bound anywhere in the statements (assignment, augmented assignment, loop targets), lists changed by
-        .append / .remove, objects one of whose attributes is stored"""
+        .append / .remove / a declared append method / `L[i] = e`, objects one of whose attributes is stored, the write log"""
         out = set()
+        wl = self.opts.get("write_log")
         for st in stmts:
             for n in ast.walk(st):
                 if isinstance(n, ast.Name) and isinstance(n.ctx, ast.Store):
                     out.add(n.id)
                 elif isinstance(n, ast.Attribute) and isinstance(n.ctx, ast.Store) and isinstance(n.value, ast.Name):
                     out.add(n.value.id)
-                elif isinstance(n, ast.Call) and isinstance(n.func, ast.Attribute) and n.func.attr in ("append", "remove") \
+                elif isinstance(n, ast.Subscript) and isinstance(n.ctx, ast.Store) and isinstance(n.value, ast.Name):
+                    out.add(n.value.id)
+                elif isinstance(n, ast.Call) and isinstance(n.func, ast.Attribute) \
+                        and n.func.attr in ("append", "remove") + tuple(self.opts.get("append_methods", ())) \
                         and isinstance(n.func.value, ast.Name):
                     out.add(n.func.value.id)
+                if wl and isinstance(n, ast.Call) and ast.unparse(n.func) == wl:
+                    out.add("py_log")
         return out
 
     @staticmethod
@@ -1458,7 +1671,7 @@ class FnTranslator:
                 bad(node, "a string is rebound in a loop")
             if isinstance(t, tuple) and t[0] == "L" and t[1] is None:
                 bad(node, "list %s has no element type at the loop: declare it in the signature" % k)
-            entries.append((k, ident(k), t))
+            entries.append((k, k if k == "py_log" else ident(k), t))
         for k in sorted(stored):
             if k not in env and isinstance(self.locals.get(k), tuple) and self.locals[k][0] == "U":
                 entries.append((k, ident(k), self.locals[k]))
@@ -1524,13 +1737,23 @@ class FnTranslator:
     def loop_for(self, s, rest, env, fresh, K):
         if s.orelse:
             bad(s, "for ... else")
-        if not isinstance(s.target, ast.Name):
-            bad(s, "loop target that is not a plain name")
-        tgt = s.target.id
-        binds = []
         it = s.iter
+        enum = (isinstance(it, ast.Call) and isinstance(it.func, ast.Name) and it.func.id == "enumerate" and "enumerate" not in env
+                and not it.keywords and len(it.args) == 1)
+        if enum:
+            # for k, x in enumerate(L): the list of pairs (position, element), Py.enumerate
+            if not (isinstance(s.target, ast.Tuple) and len(s.target.elts) == 2 and all(isinstance(t, ast.Name) for t in s.target.elts)
+                    and s.target.elts[0].id != s.target.elts[1].id):
+                bad(s, "enumerate(...) without a target `k, x`")
+            tgts = [t.id for t in s.target.elts]
+            it = it.args[0]
+        else:
+            if not isinstance(s.target, ast.Name):
+                bad(s, "loop target that is not a plain name")
+            tgts = [s.target.id]
+        binds = []
         body_stored = self.stored_names(s.body)
-        if isinstance(it, ast.Call) and isinstance(it.func, ast.Name) and it.func.id == "range" and "range" not in env \
+        if not enum and isinstance(it, ast.Call) and isinstance(it.func, ast.Name) and it.func.id == "range" and "range" not in env \
                 and not it.keywords and 1 <= len(it.args) <= 3:
             vals = [self.expr(a, env, binds) for a in it.args]       # evaluated once, before the loop
             if any(v.ty != "I" for v in vals):
@@ -1550,21 +1773,30 @@ class FnTranslator:
             if env[it.id][1] is None:
                 bad(s, "list %s has no element type: declare it in the signature" % it.id)
             lst, elt = ident(it.id), env[it.id][1]
+            if enum:
+                lst, elt = "(Py.enumerate %s)" % lst, ("T", ("I", elt))
         else:
-            bad(s, "iteration over something that is neither range(...) nor a list variable")
-        state, env_in = self.loop_state(s, s.body, env, {tgt})
-        if tgt in env and isinstance(env[tgt], tuple) and env[tgt][0] in ("R", "Obj"):
-            bad(s, "loop target shadows an object")
+            bad(s, "iteration over something that is neither range(...) nor a list variable (nor enumerate of one)")
+        state, env_in = self.loop_state(s, s.body, env, set(tgts))
+        for tgt in tgts:
+            if tgt in env and isinstance(env[tgt], tuple) and env[tgt][0] in ("R", "Obj"):
+                bad(s, "loop target shadows an object")
         self.nloop += 1
         n = self.nloop
         sv, rv = "py_s%d" % n, "py_r%d" % n
         env_body = dict(env_in)
-        env_body[tgt] = elt
+        if enum:
+            lv = "py_e%d" % n
+            env_body[tgts[0]], env_body[tgts[1]] = "I", elt[1][1]
+            pre = "let %s : Int := %s.1;\nlet %s : %s := %s.2;\n" % (ident(tgts[0]), lv, ident(tgts[1]), lean_ty(elt[1][1]), lv)
+        else:
+            lv, pre = ident(tgts[0]), ""
+            env_body[tgts[0]] = elt
         body = self.block(list(s.body), env_body, fresh, KLoop(self, state))
-        lam = "(fun (%s : %s) (%s : %s) =>\n%s%s)" % (ident(tgt), lean_ty(elt), sv, self.sigma(state), self.unpack(state, sv), body)
-        env_after = {k: t for k, t in env_in.items() if k != tgt}       # the loop variable is not readable after the loop
+        lam = "(fun (%s : %s) (%s : %s) =>\n%s%s%s)" % (lv, lean_ty(elt), sv, self.sigma(state), pre, self.unpack(state, sv), body)
+        env_after = {k: t for k, t in env_in.items() if k not in tgts}       # the loop variable is not readable after the loop
         loop = "(Py.forList (ρ := %s) %s %s %s)" % (self.ret_lean(), lam, lst, self.init_terms(state, env))
-        return self.close(binds + [(rv, loop)], self.after_loop(n, state, env_after, rest, fresh - {tgt}, K))
+        return self.close(binds + [(rv, loop)], self.after_loop(n, state, env_after, rest, fresh - set(tgts), K))
 
     def loop_while(self, s, rest, env, fresh, K):
         if s.orelse:
@@ -1588,9 +1820,40 @@ class FnTranslator:
         loop = "(Py.whileLoop (ρ := %s) %s fuel %s)" % (self.ret_lean(), lam, self.init_terms(state, env))
         return self.close([(rv, loop)], self.after_loop(n, state, dict(env_in), rest, fresh, K))
 
+    def both_bound(self, s, env, fresh):
+        """names that are not bound before the `if` s, are not declared `unbound[τ]`, and that BOTH branches bind by a plain
+        top-level assignment, with the same type at the end of both branches: {name: type}; None if some name stored by s is
+        neither bound before, nor declared, nor of this kind"""
+        def top(stmts):
+            return {t.id for st in stmts if isinstance(st, ast.Assign) and len(st.targets) == 1 for t in st.targets if isinstance(t, ast.Name)}
+        new = [n for n in self.stored_names([s]) if n not in env
+               and not (isinstance(self.locals.get(n), tuple) and self.locals[n][0] == "U")]
+        if not new:
+            return {}
+        if not s.orelse or any(n not in top(s.body) or n not in top(s.orelse) for n in new):
+            return None
+        ends = []
+        class KProbe:
+            def end(self_, e):
+                ends.append(e)
+                return "()"
+        saved = (self.ntmp, self.nloop, self.size)
+        try:
+            self.block(list(s.body), dict(env), fresh, KProbe())
+            self.block(list(s.orelse), dict(env), fresh, KProbe())
+        except Unsupported:
+            return None
+        finally:
+            self.ntmp, self.nloop, self.size = saved
+        if len(ends) != 2 or any(ends[0].get(n) is None or ends[0].get(n) != ends[1].get(n) for n in new):
+            return None
+        return {n: ends[0][n] for n in sorted(new)}
+
     def if_join(self, s, rest, env, fresh, K):
         """`if` without return / break / continue ahead of a loop: both branches yield the tuple of the variables they bind"""
         state, env_in = self.loop_state(s, [s], env, set())
+        for n, ty in self.both_bound(s, env, fresh).items():      # bound by both branches, not before: joined too
+            state.append((n, ident(n), ty))
         binds = []
         c = self.expr(s.test, env, binds)
         if c.ty != "B":
@@ -1601,8 +1864,13 @@ class FnTranslator:
         a = self.block(list(s.body), env_in, fresh, KJ)
         b = self.block(list(s.orelse), env_in, fresh, KJ)
         joined = "(if %s then\n%s\nelse\n%s)" % (c.term, a, b)
-        pre = "".join("let %s : %s := none;\n" % (lname, lean_ty(ty)) for key, lname, ty in state if key not in env)
-        return pre + self.close(binds + [(jv, joined)], self.unpack(state, jv) + self.block(rest, dict(env_in), fresh, K))
+        pre = "".join("let %s : %s := none;\n" % (lname, lean_ty(ty)) for key, lname, ty in state
+                      if key not in env and isinstance(ty, tuple) and ty[0] == "U")
+        env_out = dict(env_in)
+        for key, lname, ty in state:
+            env_out.setdefault(key, ty)
+        env_out["#rebound"] = frozenset(env_out.get("#rebound", frozenset()) | self.stored_names([s]))
+        return pre + self.close(binds + [(jv, joined)], self.unpack(state, jv) + self.block(rest, env_out, fresh, K))
 
     # ---- statements
     def coerce(self, node, v, want):
@@ -1628,6 +1896,11 @@ class FnTranslator:
         if not stmts:
             return K.end(env)
         s, rest = stmts[0], stmts[1:]
+        if isinstance(s, (ast.Assign, ast.AugAssign, ast.For, ast.While)):
+            nb = self.stored_names([s])     # names no longer holding the caller's argument from here on (isinstance_test)
+            if nb - env.get("#rebound", frozenset()):
+                env = dict(env)
+                env["#rebound"] = frozenset(env.get("#rebound", frozenset()) | nb)
         if ast.unparse(s) in self.opts.get("assume_noop_stmts", ()):
             return self.block(rest, env, fresh, K)      # DECLARED: this statement has no effect on anything the function reads later
         rc = self.opts.get("result_call")
@@ -1640,8 +1913,85 @@ class FnTranslator:
             return self.block([ast.copy_location(ast.Return(value=s.value.args[0]), s)], env, fresh, K)
         if isinstance(s, ast.Pass):
             return self.block(rest, env, fresh, K)
+        if isinstance(s, ast.Raise):
+            return "(.error Py.Err.raised)"      # the exception class and its message are not tracked; the rest is unreachable
+        if isinstance(s, ast.If) and ast.unparse(s.test) in self.opts.get("assume_true", ()):
+            return self.block(list(s.body) + rest, env, fresh, K)       # DECLARED: this test is true whenever it is evaluated
+        if isinstance(s, ast.If) and ast.unparse(s.test) in self.opts.get("assume_false", ()):
+            return self.block(list(s.orelse) + rest, env, fresh, K)     # DECLARED: this test is false whenever it is evaluated
+        if isinstance(s, ast.Assign) and len(s.targets) == 1 and isinstance(s.targets[0], ast.Name):
+            x, val = s.targets[0].id, s.value
+            if isinstance(val, ast.Lambda):
+                # LAMBDAS: x = lambda p: e — kept as syntax; its free names must be names the function never assigns
+                a = val.args
+                if a.vararg or a.kwarg or a.kwonlyargs or a.posonlyargs or a.defaults or len(a.args) != 1:
+                    bad(s, "lambda that does not take exactly one plain parameter")
+                free = {n.id for n in ast.walk(val.body) if isinstance(n, ast.Name)} - {a.args[0].arg}
+                if free & (self.assigned - set(self.params)) or any(p in free and p in self.assigned for p in self.params):
+                    bad(s, "lambda reading a variable that the function assigns")
+                env2 = dict(env)
+                env2[x] = ("Lam", val)
+                return self.block(rest, env2, fresh - {x}, K)
+            if isinstance(val, ast.Call) and ast.unparse(val.func) in self.opts.get("assume_identity_fn", ()) and len(val.args) == 1 \
+                    and not val.keywords and isinstance(val.args[0], ast.Name) and isinstance(env.get(val.args[0].id), tuple) \
+                    and env[val.args[0].id][0] == "Lam":
+                env2 = dict(env)      # DECLARED: on the (scalar) arguments it is called with, the result behaves as the lambda itself
+                env2[x] = env[val.args[0].id]
+                return self.block(rest, env2, fresh - {x}, K)
+            if isinstance(val, ast.Call) and not val.args and not val.keywords and ast.unparse(val.func) in self.opts.get("new_list", {}):
+                # DECLARED: this constructor call makes an empty collection seen as a list of the declared element type
+                env2 = dict(env)
+                env2[x] = parse_ty(self.opts["new_list"][ast.unparse(val.func)])
+                self.allow_rec = True
+                return "let %s : %s := [];\n%s" % (ident(x), lean_ty(env2[x]), self.block(rest, env2, fresh | {x}, K))
+        if isinstance(s, ast.Assign) and len(s.targets) == 1 and isinstance(s.targets[0], ast.Subscript) \
+                and isinstance(s.targets[0].value, ast.Name):
+            # L[i] = e on a list created in this function: Py.setIdx (Python's negative indices, IndexError)
+            tgt = s.targets[0]
+            x = tgt.value.id
+            if x in fresh and env.get(x) == ("L", ("L", "F")) and isinstance(tgt.slice, ast.Tuple) and len(tgt.slice.elts) == 2:
+                # T[i, j] = e on a table created in this function by np.zeros: Py.setIdx2 (the value is stored as a float)
+                binds = []
+                i1 = self.expr(tgt.slice.elts[0], env, binds)
+                i2 = self.expr(tgt.slice.elts[1], env, binds)
+                if binds or i1.ty != "I" or i2.ty != "I":
+                    bad(s, "table index that can raise / is not an int in an item assignment")
+                v = self.expr(s.value, env, binds)
+                binds.append((ident(x), "(Py.setIdx2 %s %s %s %s)" % (ident(x), i1.term, i2.term, self.coerce(s.value, v, "F"))))
+                return self.close(binds, self.block(rest, env, fresh, K))
+            if x not in fresh or not (isinstance(env.get(x), tuple) and env[x][0] == "L" and env[x][1] in ("F", "I")):
+                bad(s, "item assignment to something that is not a list of numbers created (and typed) in this function")
+            if isinstance(tgt.slice, (ast.Slice, ast.Tuple)):
+                bad(s, "slice / tuple subscript")
+            binds = []
+            iv = self.expr(tgt.slice, env, binds)      # CPython: the value first, then the container and the index
+            if binds:
+                bad(s, "index expression that can raise in an item assignment")
+            v = self.expr(s.value, env, binds)
+            if iv.ty != "I":
+                bad(s, "list index that is not an int")
+            term = self.coerce(s.value, v, env[x][1])
+            binds.append((ident(x), "(Py.setIdx %s %s %s)" % (ident(x), iv.term, term)))
+            return self.close(binds, self.block(rest, env, fresh, K))
         if isinstance(s, ast.Expr):
             v = s.value
+            wl = self.opts.get("write_log")
+            if wl and isinstance(v, ast.Call) and ast.unparse(v.func) == wl:
+                # WRITE LOG: setter(name, i, value) on the declared object appends (i, value) to the log
+                if v.keywords or len(v.args) != 3 or not (isinstance(v.args[0], ast.Name) and env.get(v.args[0].id) == "S"
+                                                          and v.args[0].id in self.params and v.args[0].id not in self.assigned):
+                    bad(s, "logged write whose first argument is not a never-assigned `name` parameter")
+                et = self.ret[1][1]
+                binds = []
+                iv = self.expr(v.args[1], env, binds)
+                vv = self.expr(v.args[2], env, binds)
+                entry = "(%s, %s)" % (self.coerce(v.args[1], iv, et[0]), self.coerce(v.args[2], vv, et[1]))
+                return self.close(binds, "let py_log := py_log ++ [%s];\n%s" % (entry, self.block(rest, env, fresh, K)))
+            if isinstance(v, ast.Call) and isinstance(v.func, ast.Attribute) and v.func.attr in self.opts.get("append_methods", ()) \
+                    and isinstance(v.func.value, ast.Name) and len(v.args) == 1 and not v.keywords:
+                # DECLARED: this method appends its argument to the collection (a list created by a declared `new_list` call)
+                v = ast.copy_location(ast.Call(func=ast.Attribute(value=v.func.value, attr="append", ctx=ast.Load()), args=v.args, keywords=[]), v)
+                ast.fix_missing_locations(v)
             if isinstance(v, ast.Constant) and isinstance(v.value, str):
                 return self.block(rest, env, fresh, K)        # docstring
             if isinstance(v, ast.Call) and isinstance(v.func, ast.Name) and v.func.id == "print" and "print" not in env:
@@ -1695,6 +2045,10 @@ class FnTranslator:
                 binds.append((ident(x), "(Py.removeFirst %s %s %s)" % (eqv, ident(x), term)))   # ValueError when absent
                 return self.close(binds, self.block(rest, env, fresh, K))
             bad(s, "expression statement")
+        if isinstance(s, ast.Return) and isinstance(s.value, ast.Call) and ast.unparse(s.value.func) in self.opts.get("result_through", ()) \
+                and len(s.value.args) == 1 and not s.value.keywords:
+            # DECLARED: `return g(T)` — the translation returns T itself (what g makes of it is outside the translation)
+            return self.block([ast.copy_location(ast.Return(value=s.value.args[0]), s)] + rest, env, fresh, K)
         if isinstance(s, ast.Return):
             if s.value is None or (isinstance(s.value, ast.Constant) and s.value.value is None):
                 if isinstance(self.ret, tuple) and self.ret[0] == "O":
@@ -1793,6 +2147,11 @@ class FnTranslator:
                         b2 = []
                         term = "[" + ", ".join(self.as_float(x, self.expr(x, env, b2)) for x in val.elts) + "]"
                         ty = ("L", "F")       # `S = [0]` later extended with floats
+                    elif want == ("L", "F") and ty == ("L", "I") and isinstance(val, ast.BinOp) and isinstance(val.left, ast.List):
+                        b2 = []       # `values = [0] * n` later filled with floats
+                        term = "(Py.replicate %s %s)" % (self.expr(val.right, env, b2).term,
+                                                         self.as_float(val.left.elts[0], self.expr(val.left.elts[0], env, b2)))
+                        ty = ("L", "F")
                     elif want == "I" and ty == "F":
                         pass        # declared int for its integer-literal bindings; this binding is a float (dynamic typing)
                     elif want != ty:
@@ -1809,7 +2168,9 @@ class FnTranslator:
                     return self.block(rest, env2, fresh - {x}, K)
                 env2 = dict(env)
                 env2[x] = ty
-                fresh2 = (fresh | {x}) if isinstance(val, ast.List) else (fresh - {x})
+                fresh2 = (fresh | {x}) if (isinstance(val, ast.List) or (isinstance(val, ast.BinOp) and isinstance(val.left, ast.List))
+                                           or (isinstance(val, ast.Call) and ast.unparse(val.func) == "np.zeros")) \
+                    else (fresh - {x})
                 body = "let %s : %s := %s;\n%s" % (ident(x), lean_ty(ty), term, self.block(rest, env2, fresh2, K))
                 return self.close(binds, body)
             if isinstance(tgt, ast.Tuple) and all(isinstance(t, ast.Name) for t in tgt.elts):
@@ -1832,6 +2193,10 @@ class FnTranslator:
         if isinstance(s, ast.AugAssign):
             if isinstance(s.target, ast.Name):
                 tstore, tload = ast.Name(id=s.target.id, ctx=ast.Store()), ast.Name(id=s.target.id, ctx=ast.Load())
+            elif isinstance(s.target, ast.Subscript) and isinstance(s.target.value, ast.Name):
+                # L[i] op= e: L[i] is read, e evaluated, the result stored at the same (pure) index
+                tstore = ast.Subscript(value=ast.Name(id=s.target.value.id, ctx=ast.Load()), slice=s.target.slice, ctx=ast.Store())
+                tload = ast.Subscript(value=ast.Name(id=s.target.value.id, ctx=ast.Load()), slice=s.target.slice, ctx=ast.Load())
             elif isinstance(s.target, ast.Attribute) and isinstance(s.target.value, ast.Name):
                 tstore = ast.Attribute(value=ast.Name(id=s.target.value.id, ctx=ast.Load()), attr=s.target.attr, ctx=ast.Store())
                 tload = ast.Attribute(value=ast.Name(id=s.target.value.id, ctx=ast.Load()), attr=s.target.attr, ctx=ast.Load())
@@ -1854,8 +2219,7 @@ class FnTranslator:
             if st is not None:
                 # the test is an isinstance test decided by the declared kinds: only the branch taken is translated
                 return self.block(list(s.body if st else s.orelse) + rest, env, fresh, K)
-        if isinstance(s, ast.If) and self.has_loop(rest) and not self.has_jump([s]) \
-                and all(n in env or (isinstance(self.locals.get(n), tuple) and self.locals[n][0] == "U") for n in self.stored_names([s])):
+        if isinstance(s, ast.If) and self.has_loop(rest) and not self.has_jump([s]) and self.both_bound(s, env, fresh) is not None:
             return self.if_join(s, rest, env, fresh, K)
         if isinstance(s, ast.If):
             binds = []
@@ -1887,7 +2251,15 @@ class FnTranslator:
         self._env_names = set(self.params)
         self.assigned = {n.id for n in ast.walk(fdef) if isinstance(n, ast.Name) and isinstance(n.ctx, ast.Store)}
         self.last_stmt = fdef.body[-1]
+        if self.opts.get("write_log"):
+            # WRITE LOG: the declared setter's calls are the function's only effect; their (index, value) pairs, in order, are its result
+            if not (isinstance(self.ret, tuple) and self.ret[0] == "L" and isinstance(self.ret[1], tuple) and self.ret[1][0] == "T"
+                    and len(self.ret[1][1]) == 2) or any(isinstance(n, ast.Return) for n in ast.walk(fdef)):
+                raise Unsupported("a function with a write log must be declared to return list[tuple[int,τ]] and have no return statement")
+            env["py_log"] = self.ret
         body = self.block(list(fdef.body), env, frozenset(), KFun(self))
+        if self.opts.get("write_log"):
+            body = "let py_log : %s := [];\n%s" % (lean_ty(self.ret), body)
         alltypes = [t for p, t in self.params.items() if p not in self.records] + [self.ret]
         for r in self.records.values():
             alltypes += list(r.values())
@@ -1908,7 +2280,12 @@ class FnTranslator:
         for p, t in self.params.items():
             if p in self.records:
                 for f, ft in self.records[p].items():
-                    base = p + "_" + f.replace("()", "")
+                    base = p + "_" + f.split("(")[0]
+                    if not f.endswith("()") and f.endswith(")"):
+                        atys = f[f.index("(") + 1:-1].replace(" ", "").split(",")
+                        if atys != ["col", "int"]:       # an uninterpreted pure function of the object
+                            sig.append("(%s : %s)" % (ident(base), " → ".join([lean_ty(parse_ty(t)) for t in atys] + [lean_ty(ft)])))
+                        continue
                     if isinstance(ft, tuple) and ft[0] == "Obj":
                         fields = self.unit.ctor_fields(ft[1])
                         if fields is None:
@@ -1918,8 +2295,10 @@ class FnTranslator:
                             sig.append("(%s : %s)" % (ident(base + "_" + g), lean_ty(ftypes[g])))
                     else:
                         sig.append("(%s : %s)" % (ident(base), lean_ty(ft)))
-            else:
+            elif t != "S":       # a `name` parameter is opaque: no Lean parameter
                 sig.append("(%s : %s)" % (ident(p), lean_ty(t)))
+        for v, (vt, argt) in sorted(self.rec_funs.items()):
+            sig.append("(%s : %s → %s)" % (v, lean_ty(argt), lean_ty(vt)))
         if isinstance(self.ret, tuple) and self.ret[0] == "Obj":
             fields = self.unit.ctor_fields(self.ret[1])
             if fields is None:
@@ -1948,7 +2327,8 @@ class Unit:
     def parse(self):
         if self.tree is None and self.parse_error is None:
             try:
-                with open(self.src) as fh:
+                with open(self.src) as fh, warnings.catch_warnings():
+                    warnings.simplefilter("ignore", SyntaxWarning)      # invalid escape sequences in tracklib's docstrings
                     self.tree = ast.parse(fh.read())
             except (OSError, SyntaxError) as ex:
                 self.parse_error = str(ex).replace("\n", " ")
